@@ -1,2 +1,51 @@
-(** C24 - under construction *)
-From DicomV Require Import Model.Json Spec.AnnexF.
+(** C24 - DICOM JSON output conforms to PS3.18 Annex F.
+    Statements only; proofs are in Proofs/AnnexFP.v.
+
+    [annexf_ok] (Spec/AnnexF.v) is a validator written from the standard; [ser]
+    is the model of dicom_json::to_value (Model/Json.v). *)
+From DicomV Require Import Model.Json Spec.AnnexF Proofs.JsonBaseP Proofs.AnnexFP.
+
+(** Every data set within the hypotheses ([conf_dset]: well-formed as in C23,
+    person names with at most three component groups, UL values held as 64-bit
+    integers below 2^31) serialises to a document the Annex F validator accepts:
+    keys are eight upper-case hex digits in ascending order, one "vr" per
+    attribute, AT as eight hex digits, PN as component-group objects, numbers
+    for FL/FD/SL/SS/UL/US (documented strings for non-finite floats), base64
+    InlineBinary for binary VRs, arrays of data sets for SQ, no "Value" for empty
+    values; at any nesting depth. *)
+Theorem C24_conforms : forall X d,
+  conf_dset X d = true -> exists j, ser X d = Ok j /\ annexf_ok j = true.
+Proof. exact ser_conforms. Qed.
+
+(** InlineBinary is the base64 text of the value's bytes ([to_bytes]: little-endian
+    for the numeric kinds), and what is written is canonical base64. *)
+Theorem C24_inline_binary : forall X vr p,
+  vr_class vr = CBin -> to_bytes p <> [] -> multiplicity p <> O ->
+  ser_prim X vr p = Ok (MCons k_InlineBinary (JStr (b64enc (to_bytes p))) MNil)
+  /\ is_base64 (b64enc (to_bytes p)) = true.
+Proof.
+  intros X vr p C Hb Hm. split.
+  - unfold ser_prim. rewrite C. destruct (multiplicity p); [congruence|].
+    destruct (to_bytes p); [congruence | reflexivity].
+  - apply is_base64_b64enc, JsonP.to_bytes_wf.
+Qed.
+Theorem C24_bytes_little_endian : forall k l,
+  to_bytes (PInt k l) = flat_map (fun z => le_bytes (ikind_size k) (Z.to_N (z mod 2 ^ (8 * Z.of_nat (ikind_size k))))) l.
+Proof. reflexivity. Qed.
+
+(** Non-vacuity: the C23 example (nested sequence, PN groups, non-finite floats,
+    64-bit integer, binary data) plus an AT element meets the hypotheses. *)
+Definition C24_example : dset :=
+  dset_of [ (524309, V_SQ, vseq [dset_of [(1048608, V_LO, VPrim (PStrs [[73; 68; 32]]))]; dset_of []]);
+            (1048592, V_PN, VPrim (PStrs [[65; 61; 66; 61; 67]]));
+            (1572944, V_FL, VPrim (PF32 [2143289345; 4286578688; 1069547520]));
+            (1572945, V_UV, VPrim (PInt KU64 [18446744073709551615%Z]));
+            (2117632, V_AT, VPrim (PTags [1048608; 2882400001]));
+            (2145386512, V_OW, VPrim (PInt KU16 [1%Z; 65534%Z])) ].
+Example C24_nonvacuous : forall X, conf_dset X C24_example = true.
+Proof. reflexivity. Qed.
+
+Check C24_conforms : forall X d, conf_dset X d = true -> exists j, ser X d = Ok j /\ annexf_ok j = true.
+Print Assumptions C24_conforms.
+Print Assumptions C24_inline_binary.
+Print Assumptions C24_bytes_little_endian.
